@@ -169,10 +169,11 @@ PROPS = {
     ),
     "C20": dict(
         harnesses=[
-            dict(run="pkg/zzc20.VerifC20NoCrash", quick=dict(requests=1, keylen=2), thorough=dict(requests=2, keylen=1), covers=["done"]),
+            dict(run="pkg/zzc20.VerifC20NoCrash", name="C20_single", quick=dict(requests=1, keylen=2), thorough=dict(requests=1, keylen=3), covers=["done"]),
+            dict(run="pkg/zzc20.VerifC20NoCrash", name="C20_pairs", quick=dict(requests=2, keylen=0), thorough=dict(requests=2, keylen=1), covers=["done"]),
         ],
-        bounds=dict(quick="one request through any of 14 handler groups of both APIs with keys/values/range ends of 0..2 arbitrary bytes (invalid UTF-8, bytes below the alphabet), symbolic 64-bit revisions and limits (zero, negative, far future), missing sub-messages, watches cancelled; real prometheus wrapper over a model of client_golang's panic rules; then a create + get must work",
-                    thorough="every ordered pair of requests (so that two emission sites of one metric meet in one process)"),
+        bounds=dict(quick="every ordered pair of requests with empty keys (so that two emission sites of one metric meet in one process), and one request through any of 14 handler groups of both APIs with keys/values/range ends of 0..2 arbitrary bytes (invalid UTF-8, bytes below the alphabet), symbolic 64-bit revisions and limits (zero, negative, far future), missing sub-messages, watches cancelled; real prometheus wrapper over a model of client_golang's panic rules; then a create + get must work",
+                    thorough="pairs with keys of 0..1 bytes; single requests with keys of 0..3 bytes"),
         outside="protobuf/gRPC decoding; resource exhaustion; more than 2 requests per process; metric emission sites not reached by these handlers (election callbacks, retry loop, compaction histories)",
     ),
     "C11": dict(
@@ -188,9 +189,10 @@ PROPS = {
     "C19": dict(
         harnesses=[
             dict(run="pkg/zzc19.VerifC19Memkv", quick=dict(preempt=2), thorough=dict(preempt=3), covers=["done"], race=True, race_replay=True, stress=40),
+            dict(run="pkg/zzc19.VerifC19MemkvTTL", quick=dict(preempt=1, native_timer_ms=1300), thorough=dict(preempt=2, native_timer_ms=1300), covers=["done"], race=True, race_replay=True, stress=10),
             dict(run="pkg/zzc19.VerifC19Backend", quick=dict(preempt=1), thorough=dict(preempt=2), covers=["done"], race=True, race_replay=True, stress=40),
         ],
-        bounds=dict(quick="happens-before (vector clock) monitor over the explored schedules of: reader ∥ writer ∥ iterator on the in-memory engine (<= 2 delays); update ∥ {get, watch} / {list, count} / {compact, compact} on one node over the real in-memory adapter with the sequencer and fan-out threads in the schedule (<= 1 delay)",
+        bounds=dict(quick="happens-before (vector clock) monitor over the explored schedules of: reader ∥ writer ∥ iterator on the in-memory engine (<= 2 delays); TTL expiry (timer goroutine) ∥ reader ∥ iterator (<= 1 delay); update ∥ {get, watch} / {list, count} / {compact, compact} on one node over the real in-memory adapter with the sequencer and fan-out threads in the schedule (<= 1 delay)",
                     thorough="one more delay each"),
         outside="Badger / TiKV client internals; the skiplist's internals (one abstract location per list); the Go memory model beyond happens-before; request mixes other than the listed ones; the retry loop and the election goroutine",
         assumptions=["the verdict is a happens-before computation on each explored schedule: the solver only decides which paths are feasible (weakest fit for the technique, see DESIGN.md C19)"],
